@@ -4,17 +4,27 @@ Public names
 ------------
 ``VLoop(cluster=None, start=0.0)``
     ``asyncio.SelectorEventLoop`` whose ``time()`` is a virtual clock.  When nothing is ready the
-    clock jumps to the next timer.  It never touches the network: the selector is a stub and
-    ``create_connection`` returns a :class:`SimTransport` wired to ``cluster``.
+    clock jumps to the next timer (rounded up to a 2**-20 s grid; a zero-length timer lets one
+    tick pass).  It never touches the network: the selector is a stub (a loop with nothing to do
+    raises ``SimDeadlock`` instead of sleeping for ever), ``run_in_executor`` runs inline and
+    ``create_connection`` returns a :class:`SimTransport` wired to ``cluster`` or raises
+    ``ConnectionRefusedError`` when the node is down / unknown.
     ``loop.leftover()`` -> ``{"tasks": [...], "timers": [...], "transports": [...], "errors": [...]}``
-    (what the code under test left behind; simulator-owned timers are not listed).
+    what the code under test left behind: pending tasks (``name:coroutine @ innermost await``),
+    live timer handles, transports the client never closed, and whatever reached the loop's
+    exception handler ("Task exception was never retrieved", ...).  Simulator-owned handles are
+    not listed.  ``loop.max_spin`` iterations without clock progress raise ``SimBug`` (livelock).
 ``virtual_time(loop)``
-    context manager patching ``time.monotonic`` / ``time.time`` to the loop's clock.
+    context manager patching ``time.monotonic`` / ``time.time`` (= ``EPOCH`` + virtual seconds).
 ``run(coro, cluster, *, max_vt=3600.0, grace=120.0)``
     run ``coro`` on a fresh VLoop bound to ``cluster`` under virtual time; returns its result.
-    Raises :class:`SimTimeout` when virtual time passes ``max_vt`` first (the coroutine is then
-    cancelled), :class:`SimBug` on a simulator fault.  Afterwards ``cluster.leftover`` holds the
-    ``loop.leftover()`` report taken right after the coroutine finished.
+    Raises :class:`SimTimeout` (with ``.where`` = await chain) when virtual time passes ``max_vt``
+    first - the coroutine is then cancelled and, if its cleanup hangs too, the loop is stopped
+    after ``grace`` more virtual seconds - and :class:`SimBug` on a simulator fault.  Afterwards
+    ``cluster.leftover`` holds the ``loop.leftover()`` report taken right after the coroutine
+    finished; after a SimTimeout it is the report taken at the moment the hang was declared.
+``now_ms()`` virtual wall-clock milliseconds, for ``producer.send(..., timestamp_ms=now_ms())``.
+``await_chain(task)`` -> list of "function (file:line)" from the task's coroutine inwards.
 ``leftover_empty(report)`` -> bool.
 """
 
@@ -40,6 +50,7 @@ __all__ = [
     "run",
     "leftover_empty",
     "now_ms",
+    "await_chain",
     "EPOCH",
 ]
 
@@ -271,6 +282,7 @@ class SimTransport(asyncio.Transport):
         self.closing = False  # the client closed / aborted
         self.server_closed = False  # the broker closed (client sees EOF)
         self.blackholed = False  # broker stopped reading (lose_reply)
+        self.lost_traced = False  # a conn_lost event was written for this connection
         self._lost_called = False
         self._buf = bytearray()
         # broker side
@@ -348,6 +360,8 @@ class SimTransport(asyncio.Transport):
         if self.closing:
             return
         self.closing = True
+        if self.loop.is_closed():
+            return
         self.loop.cluster._conn_closed(self, "client")
         self.loop.call_soon(self._connection_lost, None)
 
@@ -496,6 +510,7 @@ def run(coro, cluster, *, max_vt=3600.0, grace=120.0):
     def on_timeout():
         state["timed_out"] = True
         state["where"] = await_chain(state["task"])
+        state["leftover"] = loop.leftover()  # what was alive when the hang was declared
         if state["task"] is not None and not state["task"].done():
             state["task"].cancel()
         # the cancelled coroutine may hang in its own cleanup: hard stop after a grace period
@@ -509,7 +524,7 @@ def run(coro, cluster, *, max_vt=3600.0, grace=120.0):
         finally:
             watchdog.cancel()
             await _settle()
-            cluster.leftover = loop.leftover()
+            cluster.leftover = state.get("leftover") or loop.leftover()
 
     result = None
     error = None
@@ -571,7 +586,7 @@ def _cancel_all(loop, drain=True):
         t.cancel()
     loop._spin = 0
 
-    async def drain():
+    async def _drain():
         # bounded: a task that refuses to die is abandoned
         for _ in range(200):
             if all(t.done() for t in pending):
@@ -579,7 +594,7 @@ def _cancel_all(loop, drain=True):
             await asyncio.sleep(0)
 
     loop._stopping = False
-    loop.run_until_complete(drain())
+    loop.run_until_complete(_drain())
     for t in pending:
         if not t.done():
             t._log_destroy_pending = False
